@@ -197,5 +197,6 @@ pub fn def() -> PropDef {
         assumptions: &["monitors observe executed accesses only", "panics that are not memory monitors are ignored here (C01 decides them)"],
         spaces: vec![Space { name: "calls", decode, plan: |t| Plan::Random(t.n(80_000, 2_000_000)) }],
         differential: false,
+        floors: &[("calls", 1.5)],
     }
 }
